@@ -187,9 +187,15 @@ fn judge(
 
 fn check_repr<D>(g: &D, name: &str, m: &UModel, sources: &[usize], obs: &mut Obs) -> Verdict
 where
-    D: Order + OutNeighbors,
+    D: Order + OutNeighbors + Clone,
 {
     let budget = m.size() + sources.len() + 2;
+    if m.order() <= 40 {
+        let len = m.reach(sources).len();
+        crate::props::c02::clone_consistency(&format!("Dfs<{name}>"), || Dfs::new(g, sources.iter().copied()), len)?;
+        crate::props::c02::clone_consistency(&format!("DfsDist<{name}>"), || DfsDist::new(g, sources.iter().copied()), len)?;
+        crate::props::c02::clone_consistency(&format!("DfsPred<{name}>"), || DfsPred::new(g, sources.iter().copied()), len)?;
+    }
 
     let mut it = Dfs::new(g, sources.iter().copied());
     let first: Vec<Item> = it
